@@ -46,7 +46,7 @@ MonInit ==
   [pos |-> 0, cls |-> "", ps |-> "", size |-> Inf, sizeFixed |-> TRUE, implBase |-> Inf, lastSetPos |-> 0,
    endsSinceSet |-> 0, C |-> {}, alive |-> {}, prevAlive |-> {}, T |-> <<>>, R |-> <<>>, liveG |-> {}, Gobs |-> <<>>,
    forgot |-> {}, maybe |-> {}, closed |-> FALSE, H |-> <<>>, lastO |-> <<0, 0, 0, 0, 0, Inf>>,
-   lastCall |-> -2, void |-> FALSE, nstart |-> 0, inj |-> {}, cbCanc |-> FALSE, extCanc |-> FALSE, gfPos |-> 0, anyExc |-> FALSE,
+   lastCall |-> -2, void |-> FALSE, nstart |-> 0, lastIdle |-> TRUE, implSlack |-> 0, inj |-> {}, cbCanc |-> FALSE, extCanc |-> FALSE, gfPos |-> 0, anyExc |-> FALSE,
    viol |-> {}, hit |-> {}]
 
 (* ---- bookkeeping helpers ------------------------------------------------ *)
@@ -254,6 +254,8 @@ OnSpawn(g, e) ==
       v1 == Chk("C09.err", e.r, okRes <=> causes = {})
             \cup Chk("C09.err", e.r, (~okRes /\ causes # {}) => (SeqSet(e.isa) \cap causes # {}))
             \cup Chk("C09.noeffect", e.r, ~okRes => SameObs(g, e))
+            \* a request without an explicit name can never collide with a live group
+            \cup Chk("C10.names", e.r, (~okRes /\ ~e.named) => "InvalidGroupName" \notin SeqSet(e.isa))
             \* a rejected start() must not even consume a group index: the next accepted one continues the count
             \cup Chk("C09.noeffect", e.r, (okRes /\ e.kind = "start") => e.idx = g.nstart)
             \* once the pool is closed that is what a spawn request is told (a closed pool is always locked as well)
@@ -369,6 +371,8 @@ OnSetSize(g, e) ==
   IN IF e.n < 0
      THEN Out(g, Chk("C15.neg", -1, e.res = "ValueError" /\ SameObs(g, e)), Hit("C15.neg", TRUE))
      ELSE Out([g EXCEPT !.size = e.n, !.sizeFixed = @ /\ ~inflight, !.implBase = e.n + busy,
+                        \* a slot handed to a spawner that has not resumed yet is invisible here: allow for it later
+                        !.implSlack = IF g.lastIdle THEN 0 ELSE Card(DOMAIN g.R),
                         !.lastSetPos = g.pos, !.endsSinceSet = 0],
               Chk("C15.set", -1, e.res = "ok"),
               Hit("C15.set", inflight) \cup Hit("C15.raise", inflight /\ (g.size # Inf /\ e.n > g.size))
@@ -541,8 +545,10 @@ Post(g, e) ==
       vIdle == IF quiet THEN Chk("C02.idle", -1, run = live /\ canc = 0) ELSE {}
       implFree == IF g.implBase = Inf THEN Inf ELSE g.implBase - (run + canc)
       nReq == Card(DOMAIN g.R)
+      (* the known finding explains exactly the implemented free count; slack only while slots may be in transit *)
       vGet == ChkK("C15.get", -1, szobs = g.size,
-                   IF g.implBase # Inf /\ szobs <= implFree + nReq /\ szobs >= implFree - nReq THEN "KF-B.get" ELSE "")
+                   IF g.implBase # Inf /\ (IF quiet THEN szobs <= implFree + g.implSlack /\ szobs >= implFree - g.implSlack
+                                            ELSE szobs <= implFree + nReq /\ szobs >= implFree - nReq) THEN "KF-B.get" ELSE "")
       vConc == UNION {IF g.R[r].kind \in MapKinds /\ g.R[r].acc
                       THEN Chk("C05.conc", r, Card(LiveOf(g, r)) <= g.R[r].nc) ELSE {} : r \in DOMAIN g.R}
       (* work conservation at quiet idle points *)
@@ -564,8 +570,10 @@ Post(g, e) ==
       T2 == IF idleH THEN [id \in DOMAIN g.T |-> IF id \notin g.alive THEN [g.T[id] EXCEPT !.settled = TRUE] ELSE g.T[id]]
             ELSE g.T
       ends == IF end > g.lastO[3] THEN 1 ELSE 0
+      idleNow == IF e.e \in {"h", "final"} THEN e.idle
+                 ELSE IF e.e = "op" /\ e.name \in {"lock", "unlock", "get_ids", "set_size"} THEN g.lastIdle ELSE FALSE
   IN IF g.void THEN [g EXCEPT !.lastO = o] ELSE
-     Out([g EXCEPT !.lastO = o, !.T = T2, !.endsSinceSet = @ + ends],
+     Out([g EXCEPT !.lastO = o, !.T = T2, !.endsSinceSet = @ + ends, !.lastIdle = idleNow],
          vObs \cup vCnt \cup vC01 \cup vFull \cup vIdle \cup vGet \cup vConc \cup vWork \cup vRaise \cup vRoom,
          Hit("C01.live", g.sizeFixed /\ g.size # Inf /\ live = g.size /\ live > 0)
          \cup Hit("C01.full", quiet /\ g.sizeFixed /\ full) \cup Hit("C01.notfull", quiet /\ g.sizeFixed /\ ~full)
